@@ -180,12 +180,13 @@ REG['C10'] = dict(
     'declaration model',
     stubs=['none (declaration calls only)'])
 REG['C20'] = dict(
-    oracle='c20', profiles=[('decl', 1, None)],
+    oracle='c20', profiles=[('decl', 5, None), ('lock', 1, None)],
     quick=20000, thorough=2000000,
     vacuity=['assemblies', 'motor_drives_nothing', 'duplicate_names_in_chain',
              'duplicate_names_outside_chain', 'self_locking_True',
              'self_locking_False', 'rerouted_before_assembly',
              'immutability_probes', 'redeclared_after_assembly',
+             'resets_after_redeclaration',
              'chain_len_2', 'chain_len_5', 'chain_len_8'],
     rule=_DECL + 'distinct = (element kinds, chain length, duplicate-name '
     'case); non-trivial = an assembly was judged against the chain walk of '
